@@ -386,8 +386,12 @@ def register(lib):
             return [NumPiece('usize', v, v.w)]
         if ty == 'char':
             return [v]
+        if type(v) is OpaqueSlice:
+            return [ord(c) for c in '<%s>' % v.ident]          # text of unknown content: only ever handed to stubs
         if ty in ('&str', 'str', 'String', '&String', '&&str'):
             return list(str_items(v))
+        if re.search(r'(Error|Err)$', ty) and type(v) is L:
+            return [ord(c) for c in '<display of %s>' % ty.split('::')[-1]]
         if re.match(r"^&*(std::borrow::)?Cow<('_, )?str>$", ty):
             d = v[0]
             if type(d) is int:
